@@ -78,7 +78,14 @@ def build_page(rng, skel):
     deco = Deco()
     lines, expected = [], []
     title = deco.make(rng, "title")
-    lines.append("# Title " + " ".join(title["words"]))
+    if rng.random() < 0.12:
+        # an empty comment line in front: IT is the first header line; tags, links and the date of the line below are not
+        # inherited (only its properties, which count on every header line)
+        lines.append("#")
+        lines.append("# Title " + " ".join(title["words"]))
+        title = {**title, "areas": [], "contexts": [], "people": [], "projects": [], "links": [], "date": None}
+    else:
+        lines.append("# Title " + " ".join(title["words"]))
     head2 = None
     if rng.random() < 0.4:
         head2 = deco.make(rng, "head2")
